@@ -292,6 +292,7 @@ CTOR = {  # irregular constructor names of the model
     "FloatWidth::Width32": "FloatWidth.w32", "FloatWidth::Width64": "FloatWidth.w64",
     "StringCoding::ASCII": "StringCoding.ascii", "StringCoding::UTF8": "StringCoding.utf8",
 }
+CTOR_ARGS = {"MessageType::Log": ["LogLevel"]}     # constructor arguments that are enums with a derived order
 STRUCTS = {"TypeInfo": {"kind": "kind", "coding": "coding", "has_variable_info": "hasVariableInfo",
                         "has_trace_info": "hasTraceInfo"}}
 ENUMS = {"LogLevel", "ApplicationTraceType", "NetworkTraceType", "ControlType", "MessageType",
@@ -308,7 +309,8 @@ def ctor(path):
 
 
 class Emit:
-    def __init__(self, consts, calls, fallible, selfmap=None):
+    def __init__(self, consts, calls, fallible, selfmap=None, enumvars=None):
+        self.enumvars = dict(enumvars or {})   # variable -> enum type with a generated derived order
         self.consts = consts        # NAME -> int
         self.calls = calls          # rust callee -> lean function name (infallible or Option)
         self.fallible = fallible    # this function returns Option (Ok -> some, Err -> none)
@@ -378,6 +380,11 @@ class Emit:
                   "==": "==", "!=": "!=", "&&": "&&", "||": "||", "<": "<", "<=": "≤"}.get(n[1])
             if op is None:
                 raise Untranslatable("operator " + n[1])
+            if n[1] == "<" and n[2][0] == "var" and n[3][0] == "var" and \
+                    self.enumvars.get(n[2][1]) and self.enumvars.get(n[2][1]) == self.enumvars.get(n[3][1]):
+                return "(%s_lt %s %s)" % (self.enumvars[n[2][1]], n[2][1], n[3][1])   # derived PartialOrd
+            if n[1] in ("<", "<=") and (n[2] in [("var", v) for v in self.enumvars] or n[3] in [("var", v) for v in self.enumvars]):
+                raise Untranslatable("comparison of enum values")
             a, b = self.e(n[2]), self.e(n[3])
             if op in ("<", "≤"):
                 return "(decide (%s %s %s))" % (a, op, b)
@@ -484,10 +491,10 @@ class Emit:
             raise Untranslatable("block without value")
         raise Untranslatable("`?` inside " + k)
 
-    def pat(self, p):
+    def pat(self, p, arity=1):
         k = p[0]
         if k == "pwild":
-            return "_"
+            return ", ".join(["_"] * arity)
         if k == "pname":
             v = p[1]
             c = ctor(v)
@@ -504,6 +511,12 @@ class Emit:
             c = ctor(p[1])
             if not c:
                 raise Untranslatable("pattern constructor " + p[1])
+            for x, ty in zip(p[2], CTOR_ARGS.get(p[1], [])):
+                if x[0] == "pname" and ty:
+                    self.enumvars[x[1]] = ty
+            for x in p[2]:
+                if x[0] == "pname" and p[1] not in CTOR_ARGS:
+                    self.enumvars.pop(x[1], None)        # an integer payload shadows an outer name
             return "." + c.split(".", 1)[1] + " " + " ".join(self.pat(x) for x in p[2])
         if k == "ptuple":
             return ", ".join(self.pat(x) for x in p[1])
@@ -544,11 +557,13 @@ class Emit:
             if not seen_default:
                 raise Untranslatable("integer match without default arm")
             return out + ")" * closes
+        arity = 1
         if scrut[0] == "tuple":
             s = ", ".join(self.e(x) for x in scrut[1])
+            arity = len(scrut[1])
         else:
             s = self.e(scrut)
-        return "(match %s with %s)" % (s, " ".join("| %s => %s" % (self.pat(p), body(b)) for p, b in arms))
+        return "(match %s with %s)" % (s, " ".join("| %s => %s" % (self.pat(p, arity), body(b)) for p, b in arms))
 
     def block(self, stmts):
         """statement list with SSA shadowing of mutable variables; value = last expression"""
@@ -746,6 +761,22 @@ FUNCS += [
      " ∧ (∀ hi : BitVec 6, [0x10, 0x21, 0x22, 0x23, 0x24, 0x25, 0x1023, 0x1024, 0x41, 0x42, 0x43, 0x44, 0x45, 0x1043, 0x1044, 0x83, 0x84, 0x200, 0x400, 0x0, 0x30, 0x26, 0x1021, 0x85, 0xA00, 0x1200].all"
      " (fun lo : Nat => Src.TypeInfo_try_from ((BitVec.setWidth 32 hi <<< 13) ||| BitVec.ofNat 32 lo) == TypeInfo.ofU32 ((BitVec.setWidth 32 hi <<< 13) ||| BitVec.ofNat 32 lo)) = true)"),
 ]
+NAMED = "[LogLevel.fatal, .error, .warn, .info, .debug, .verbose]"
+EH = "(ExtendedHeader.mk false 0 %s [] [])"
+FUNCS += [
+    ("skip_with_level", (r"pub fn skip_with_level\s*\([^)]*\)[^{]*\{", None),
+     "(message_type : MessageType) (level : LogLevel) : Bool", False, {"message_type": "message_type"},
+     # invalid against invalid: a message level comes from a 4-bit field, the configured level is any byte (4096 pairs);
+     # and all bytes on the left against the boundary bytes on the right
+     "(∀ a : BitVec 4, ∀ b : BitVec 8, Src.skip_with_level (.log (.invalid (BitVec.setWidth 8 a))) (.invalid b) = " + (EH % "(.log (.invalid (BitVec.setWidth 8 a)))") + ".skipWithLevel (.invalid b))"
+     " ∧ (∀ a : BitVec 8, [0, 1, 7, 15, 16, 127, 128, 255].all (fun b : Nat => Src.skip_with_level (.log (.invalid a)) (.invalid (BitVec.ofNat 8 b)) == " + (EH % "(.log (.invalid a))") + ".skipWithLevel (.invalid (BitVec.ofNat 8 b))) = true)"
+     " ∧ (∀ a : BitVec 8, " + NAMED + ".all (fun l => Src.skip_with_level (.log (.invalid a)) l == " + (EH % "(.log (.invalid a))") + ".skipWithLevel l"
+     " && Src.skip_with_level (.log l) (.invalid a) == " + (EH % "(.log l)") + ".skipWithLevel (.invalid a)) = true)"
+     " ∧ " + NAMED + ".all (fun x => " + NAMED + ".all (fun y => Src.skip_with_level (.log x) y == " + (EH % "(.log x)") + ".skipWithLevel y)) = true"
+     " ∧ [MessageType.applicationTrace .variable, .networkTrace .ipc, .control .request, .unknown 4 0, .applicationTrace (.invalid 9)].all"
+     " (fun mt => (LogLevel.invalid 0 :: LogLevel.invalid 200 :: " + NAMED + ").all (fun y => Src.skip_with_level mt y == " + (EH % "mt") + ".skipWithLevel y)) = true"),
+]
+ENUMVARS = {"skip_with_level": {"level": "LogLevel"}}
 # body text is cut at this pattern (the rest is buffer handling) and the named variable is the value
 CUT = {"TypeInfo_to_u32": (r"trace!\(\"writing type info|let mut buf\b", "info")}
 # rust callee -> (lean name, fallible)
@@ -812,7 +843,7 @@ def main():
                     raise Untranslatable("cut point not found")
                 body = body[:m.start()] + CUT[name][1] + " }"
             ast = P(lex(body)).block()
-            em = Emit(consts, CALLS, fallible, selfmap)
+            em = Emit(consts, CALLS, fallible, selfmap, ENUMVARS.get(name))
             if fallible and em.has_try(ast):
                 lean = "(Option.bind %s id)" % em.eo(ast)
             else:
@@ -839,7 +870,31 @@ def main():
                     changed = True
                     break
     u8from = [n for n in ("LogLevel_to_u8", "ApplicationTraceType_to_u8", "NetworkTraceType_to_u8", "ControlType_to_u8") if n in names]
-    pre = "class U8From (α : Type) where\n  conv : α → BitVec 8\ndef u8_from {α : Type} [U8From α] (x : α) : BitVec 8 := U8From.conv x\n"
+    order = ""
+    try:
+        em_ = re.search(r"pub enum LogLevel\s*\{(.*?)\n\}", src, re.S)
+        body_ = re.sub(r"#\[[^\]]*\]|//[^\n]*", "", em_.group(1))
+        vs_ = [v.strip() for v in body_.split(",") if v.strip()]
+        rows = []
+        for i_, v_ in enumerate(vs_):
+            nm_ = re.match(r"(\w+)", v_).group(1)
+            rows.append("| .%s%s => %d" % (lower_camel(nm_), " _" if "(" in v_ else "", i_))
+        payload = [re.match(r"(\w+)", v_).group(1) for v_ in vs_ if "(" in v_]
+        if len(payload) != 1 or len(vs_) != 7:
+            raise Untranslatable("enum shape")
+        pv = lower_camel(payload[0])
+        order = ("/-- `#[derive(PartialOrd)]` on `LogLevel`: declaration order of the variants (read from the source), then the payload -/\n"
+                 "def LogLevel_rank : LogLevel → Nat\n  %s\n"
+                 "def LogLevel_lt (x y : LogLevel) : Bool :=\n  match x, y with\n  | .%s a, .%s b => decide (a < b)\n"
+                 "  | _, _ => decide (LogLevel_rank x < LogLevel_rank y)\n" % ("\n  ".join(rows), pv, pv))
+    except Exception:
+        order = ""
+    if not order:
+        for n_ in [n for n, _ in defs if n == "skip_with_level"]:
+            defs = [(a, b) for a, b in defs if a != n_]
+            ties = [t for t in ties if not t.startswith("theorem tie_%s " % n_)]
+            status[n_] = "untranslated: the derived order of LogLevel could not be read"
+    pre = order + "class U8From (α : Type) where\n  conv : α → BitVec 8\ndef u8_from {α : Type} [U8From α] (x : α) : BitVec 8 := U8From.conv x\n"
     body = []
     for n, d in defs:
         if n == "MessageType_to_u8":
@@ -857,8 +912,8 @@ def main():
     import extract_consts as ec
     ec.write_if_changed(os.path.join(LEAN, "Generated", "SrcCodes.lean"), gen)
     # three modules, so that the two long kernel evaluations (type-info writer / decoder) build in parallel
-    heavy = {"tie_TypeInfo_to_u32": "CodesTieEnc", "tie_TypeInfo_try_from": "CodesTieDec"}
-    groups = {"CodesTie": [], "CodesTieEnc": [], "CodesTieDec": []}
+    heavy = {"tie_TypeInfo_to_u32": "CodesTieEnc", "tie_TypeInfo_try_from": "CodesTieDec", "tie_skip_with_level": "CodesTieLvl"}
+    groups = {"CodesTie": [], "CodesTieEnc": [], "CodesTieDec": [], "CodesTieLvl": []}
     for t in ties:
         nm = t.split()[1]
         groups[heavy.get(nm, "CodesTie")].append(t)
@@ -866,8 +921,8 @@ def main():
         tie = ("-- GENERATED by tools/rs2lean.py on every run; do not edit.\n"
                "-- Each function translated from the current source equals the model function the property\n"
                "-- theorems are about (kernel evaluation over the domain stated in the theorem).\n"
-               "import DltVerif.Generated.SrcCodes\nimport DltVerif.Model.Bits\nnamespace Dlt\n%s\nend Dlt\n"
-               % "\n".join(ts))
+               "import DltVerif.Generated.SrcCodes\nimport DltVerif.Model.Bits\n%snamespace Dlt\n%s\nend Dlt\n"
+               % ("import DltVerif.Model.Decode\n" if mod == "CodesTieLvl" else "", "\n".join(ts)))
         ec.write_if_changed(os.path.join(LEAN, "Props", mod + ".lean"), tie)
     ok = [n for n in status if status[n] == "translated"]
     if "--json" in sys.argv:
